@@ -101,6 +101,16 @@ def gen(ctx, tier, rng):
             L.append("auth.hmacsha512256 %s %s" % (K32(), hexs(m)))
             L.append("shorthash 24 %s %s" % (hexs(rb(rng, 16)), hexs(m)))
             L.append("shorthash x24 %s %s" % (hexs(rb(rng, 16)), hexs(m)))
+    # long messages (several SIMD batches, more than 256 blocks)
+    for n in [4095, 4096, 4097, 8192, 8193, 16385, 33000] + ([65537, 131073] if full else []):
+        m = rb(rng, n)
+        L.append("hash.sha256 %s" % hexs(m)); L.append("hash.sha512 %s" % hexs(m)); L.append("onetimeauth %s %s" % (K32(), hexs(m)))
+        L.append("generichash 64 %s N N %s" % (hexs(rb(rng, 32)), hexs(m)))
+        L.append("auth.hmacsha256 %s %s" % (K32(), hexs(m))); L.append("auth.hmacsha512 %s %s" % (K32(), hexs(m)))
+        L.append("shorthash 24 %s %s" % (hexs(rb(rng, 16)), hexs(m)))
+        c1 = rng.randrange(1, n)
+        L.append("onetimeauth %s %s %s" % (K32(), hexs(m[:c1]), hexs(m[c1:]))); L.append("hash.sha512 %s %s" % (hexs(m[:c1]), hexs(m[c1:])))
+        L.append("generichash 32 %s N N %s %s" % (hexs(rb(rng, 16)), hexs(m[:c1]), hexs(m[c1:])))
     # chunked forms
     for n in list(range(0, 300, 1 if full else 3)) + [383, 384, 385, 511, 512, 513, 640, 1023, 1024, 1025]:
         m = rb(rng, n)
